@@ -34,8 +34,13 @@ DecodeLaw == c # <<>> =>
         d == Decode(s)
     IN IF Valid(c) THEN /\ d.ok /\ d.out = Apply(c) /\ Len(d.out) = OutLen(c) /\ d.strict = EndRules(c)
                         /\ Flat(ApplyR(c)) = Apply(c)
+                        /\ Against(c, d.out) = "ok"
+                        /\ (d.out # <<>> => Against(c, [d.out EXCEPT ![Len(d.out)] = (@ + 1) % 256]) # "ok")
+                        /\ Against(c, Append(d.out, 0)) = "output-shorter-than-input"
+                        /\ (d.out # <<>> => Against(c, SubSeq(d.out, 1, Len(d.out) - 1)) = "output-longer-than-input")
                         /\ (OutLen(c) > 0 => ~DecodeInto(s, OutLen(c) - 1).ok)
-       ELSE ~d.ok /\ d.why = Check(c)
+       ELSE /\ ~d.ok /\ d.why = Check(c)
+            /\ Against(c, [i \in 1..OutLen(c) |-> 0]) # "ok"
 
 \* cutting a block inside a length extension, the literals, the offset or the match-length
 \* extension gives an invalid block
